@@ -42,6 +42,7 @@ ALLOWED_AXIOMS = {"propext", "Classical.choice", "Quot.sound"}
 FORBIDDEN = re.compile(
     r"\bsorry\b|\badmit\b|^\s*axiom\s|native_decide|bv_decide|implemented_by|\bunsafe\s|maxHeartbeats\s+0\b"
 )
+FORBIDDEN_ANYLINE = re.compile(FORBIDDEN.pattern, re.M)
 
 
 class Infra(Exception):
@@ -134,7 +135,10 @@ def forbidden_scan():
             if not fn.endswith(".lean"):
                 continue
             path = os.path.join(base, fn)
-            text = strip_comments(open(path, encoding="utf-8").read())
+            raw = open(path, encoding="utf-8").read()
+            if not FORBIDDEN_ANYLINE.search(raw):      # nothing to find even before the comments are removed
+                continue
+            text = strip_comments(raw)
             for ln, line in enumerate(text.split("\n"), 1):
                 if FORBIDDEN.search(line):
                     hits.append("%s:%d: %s" % (os.path.relpath(path, LEAN), ln, line.strip()))
@@ -216,32 +220,46 @@ def run_op(plugin, line):
     elif _HANGS[0] >= 1:
         limit = min(limit, 20)
 
-    state = {"active": True}
-
-    def handler(signum, frame):
-        if state["active"]:
-            raise _OpTimeout()
-
-    # the timer repeats (every 0.5 s after the first expiry) until the operation has been left: one exception
-    # can be swallowed by the code under test or land in a cleanup of it that blocks again
-    old = signal.signal(signal.SIGALRM, handler)
-    signal.setitimer(signal.ITIMER_REAL, limit, 0.5)
+    # the watchdog (harness/common.py) signals the main thread once the limit has passed and again every 0.5 s
+    # until the operation has been left
+    from harness.common import WATCHDOG
+    e = WATCHDOG.arm(limit, _OpTimeout)
     try:
         try:
-            return plugin.impl(line)
+            out = plugin.impl(line)
+            if isinstance(out, str) and out.startswith("hang"):
+                # the plugin's own watchdog fired.  Whatever the abandoned operation left behind (a suspended
+                # generator of the code under test whose `finally` blocks, say) is finalised NOW, under this
+                # watchdog, and not by a later garbage collection at a point nobody guards
+                _HANGS[0] += 1
+                import gc
+                gc.collect()
+            return out
         except _OpTimeout:
-            state["active"] = False
             _HANGS[0] += 1
+            try:
+                import gc
+                gc.collect()
+            except _OpTimeout:
+                pass
             return "hang"
         finally:
-            state["active"] = False
-            signal.setitimer(signal.ITIMER_REAL, 0)
-            signal.signal(signal.SIGALRM, old)
+            WATCHDOG.disarm(e)
     except _OpTimeout:
         return "hang"
 
 
 # --------------------------------------------------------------------------- findings
+
+
+def _describe(plugin, line):
+    """the plugin's decoding of an op line for the replay file (scenario labels of `extra` are not op lines)"""
+    if not hasattr(plugin, "describe"):
+        return None
+    try:
+        return plugin.describe(line)
+    except Exception:  # noqa
+        return {"scenario": line}
 
 
 def load_findings(prop):
@@ -331,9 +349,15 @@ def check(prop, tier, seed, replay=None):
 
     # ---- leg 3: correspondence + oracle
     boost = not proof_ok
+    scenario = None
     if replay:
         payload = json.load(open(replay))
-        gen = iter(payload.get("lines") or [payload["line"]])
+        if payload.get("scenario"):
+            # a scenario of the plugin's `extra` (real stacks, real threads): re-run that part, report this one
+            scenario = payload["line"]
+            gen = iter([])
+        else:
+            gen = iter(payload.get("lines") or [payload["line"]])
     else:
         gen = iter(plugin.cases(rng, tier))
         if boost and tier != "thorough":
@@ -367,6 +391,11 @@ def check(prop, tier, seed, replay=None):
         why = plugin.oracle(l, o)
         if why:
             oracle_fail.append((l, o, why))
+        if _HANGS[0] >= 25 and not replay:
+            # 25 operations of the code under test did not return: the verdict does not need more of them, and each
+            # one costs a watchdog period
+            notes.append("stopped after %d hanging operations (%d cases run)" % (_HANGS[0], len(lines)))
+            break
         if boost and not replay:
             if len(oracle_fail) >= 200:
                 notes.append("failing-input search stopped after %d failing inputs" % len(oracle_fail))
@@ -388,10 +417,14 @@ def check(prop, tier, seed, replay=None):
                 disagreements.append((l, impl_out[idx], model_out[idx]))
 
     extra = {}
-    if hasattr(plugin, "extra") and not replay:
+    extra_lines = set()
+    if hasattr(plugin, "extra") and (not replay or scenario):
         extra = plugin.extra(rng, "thorough" if boost else tier) or {}
         for v in extra.get("violations", []):
+            if scenario and v["line"] != scenario:
+                continue
             oracle_fail.append((v["line"], v.get("out", ""), v["why"]))
+            extra_lines.add(v["line"])
 
     # ---- judge
     for (l, o, why) in oracle_fail:
@@ -401,7 +434,7 @@ def check(prop, tier, seed, replay=None):
             continue
         violations.append(("oracle", {"property": prop, "kind": "property fails on the implementation",
                                       "line": l, "implementation_output": o, "why": why,
-                                      "decoded": plugin.describe(l) if hasattr(plugin, "describe") else None,
+                                      "decoded": _describe(plugin, l), "scenario": l in extra_lines,
                                       "replay_cmd": "./run.py --property %s --replay <this file>" % prop}))
     corr_unexplained = []
     oracle_failed_lines = set(x[0] for x in oracle_fail)
@@ -426,7 +459,7 @@ def check(prop, tier, seed, replay=None):
             "no_failing_input_found": True,
             "correspondence": getattr(plugin, "CORRESPONDENCE", "model vs implementation"),
             "line": l, "implementation_output": o, "model_output": m,
-            "decoded": plugin.describe(l) if hasattr(plugin, "describe") else None,
+            "decoded": _describe(plugin, l),
             "disagreements": len(corr_unexplained),
             "searched": "oracle evaluated on %d inputs (incl. every disagreeing one): no property failure" % len(lines)}))
     if not proof_ok and not [v for v in violations if v[0] == "oracle"]:
@@ -519,6 +552,23 @@ def setup():
         return 0 if ok else 2
 
 
+def _budget_watchdog(tier):
+    """last resort against a check that never returns (a finaliser of the code under test blocking outside every
+    per-operation watchdog): an infrastructure failure, exit 2, after a budget far above any normal run"""
+    import threading
+    import time as _t
+
+    budget = int(os.environ.get("VERIF_BUDGET_S", "0") or 0) or (2700 if tier == "quick" else 4 * 3600)
+
+    def watch():
+        _t.sleep(budget)
+        sys.stderr.write("INFRASTRUCTURE FAILURE: the check did not finish within %d s\n" % budget)
+        sys.stderr.flush()
+        os._exit(2)
+
+    threading.Thread(target=watch, daemon=True).start()
+
+
 def main():
     ap = argparse.ArgumentParser()
     ap.add_argument("--property")
@@ -529,6 +579,7 @@ def main():
     if a.setup:
         sys.exit(setup())
     seed = int(os.environ.get("VERIF_SEED", "0") or 0)
+    _budget_watchdog(a.tier)
     try:
         code = check(a.property, a.tier, seed, a.replay)
     except Infra as exc:
@@ -536,6 +587,19 @@ def main():
         code = 2
     # leave without joining threads: an operation judged 'hang' may have left a worker thread of the code under
     # test blocked for ever, and the interpreter's normal shutdown would wait for it
+    # the plugins' own atexit handlers (worker processes, temp directories) still run - under a watchdog
+    import atexit
+    import signal
+
+    def _giveup(signum, frame):
+        os._exit(code)
+
+    signal.signal(signal.SIGALRM, _giveup)
+    signal.setitimer(signal.ITIMER_REAL, 30)
+    try:
+        atexit._run_exitfuncs()
+    except BaseException:  # noqa
+        pass
     sys.stdout.flush()
     sys.stderr.flush()
     os._exit(code)
